@@ -289,3 +289,12 @@ def run_ptfs(bindir, lines, tag, timeout=300):
     open(p, 'w').write('\n'.join(lines) + '\n')
     rc, out = run([os.path.join(bindir, 'ptfs'), p], timeout=timeout)
     return rc, out
+
+def cut_at_stale(mops, cfg):
+    """with inode_file_handles an ESTALE answer (unlinked inode, not modelled) to a request that would have returned an inode or a
+    handle leaves the client without the slot the model assigns: the model comparison of that history ends there"""
+    if not cfg.get('inode_file_handles'): return mops
+    for j, (o, r) in enumerate(mops):
+        if errno_of(r['r']) == 116 and o['op'] in ('lookup', 'mkdir', 'mknod', 'create', 'symlink', 'link', 'open', 'opendir'):
+            return mops[:j]
+    return mops
